@@ -310,6 +310,8 @@ class Run:
 
 
 def read_ndjson(path):
+    if not path or not os.path.exists(path):
+        return        # a replay bundle holds the scenarios of the offending families only
     with open(path) as fh:
         for line in fh:
             line = line.strip()
